@@ -115,6 +115,15 @@ def run(tier, seed):
                 sel.append(a)
         if len(sel) >= (14 if quick else 120):
             break
+    # byte-set family under the code-generation side of the optimisation flags (range collapsing at several thresholds)
+    rsel = []
+    for i in range(8 if quick else 60):
+        sd = rng.randrange(1 << 30)
+        rsrc = genprog.gen_range_program(sd)[1]
+        for v in ([['-O2'], ['-O0', '-fcollapse-transition-ranges', '--collapsed-range-length', str(rng.choice([1, 2, 3]))]] if i % 2 else [['-O3', '--collapsed-range-length', '2'], ['-O0']]):
+            rsel.append(('range:%d' % sd, rsrc, v))
+    rprogs = [p for p in runner.compile_programs(rsel, want=('machine', 'codegen')) if p.ok]
+    sel = sel + rprogs
     cst = c06.c_stage(chk, sel, rng, nctx=2, label='optimised program') if sel else {'states': 0, 'transitions': 0, 'sweeps': 0, 'accepted': 0, 'binaries': 0}
     chk.coverage = {
         'states': st['states'] + cst['states'], 'transitions': st['transitions'] + cst['transitions'], 'traces_validated_against_impl': len(pairs) + cst['accepted'],
